@@ -8,7 +8,7 @@ from hypothesis import strategies as st
 from vlib import gen, kit
 from vlib.runner import Part, Result, Violation
 from vlib.sut import load
-from checks.c10_long_only import build, equity, fees, price
+from checks.c10_long_only import build, csv_cases, equity, fees, price, run_csv
 
 PROPERTY = 'C11'
 RULE = ('Direct calls of the long/short sizer on a real broker: 1-6 assets, signed weights (mixed, one-sided, '
@@ -38,10 +38,14 @@ def run_case(case):
     lev = case['leverage']
     if inv == 'leverage':
         try:
-            q.LongShortLeveragedOrderSizer(b, 'p', dh, gross_leverage=lev)
+            if case.get('via_qts'):
+                q.QuantTradingSystem(q.StaticUniverse(sorted(weights)), b, 'p', dh, None, long_only=False,
+                                     gross_leverage=lev, submit_orders=False)
+            else:
+                q.LongShortLeveragedOrderSizer(b, 'p', dh, gross_leverage=lev)
         except ValueError:
-            return Result(['rejected_leverage'], nontrivial=True)
-        raise Violation('gross leverage %r was accepted' % lev)
+            return Result(['rejected_leverage'] + (['rejected_via_trading_system'] if case.get('via_qts') else []), nontrivial=True)
+        raise Violation('gross leverage %r was accepted%s' % (lev, ' by QuantTradingSystem' if case.get('via_qts') else ''))
     if lev == 'default':
         sizer = q.LongShortLeveragedOrderSizer(b, 'p', dh)
         lev = 1.0
@@ -207,7 +211,12 @@ def grid(tier):
                            'fee': [0.001, 0.005] if (ws[0] + ps[1]) % 2 else None}
 
 
+def run_csv_ls(case):
+    return run_csv(case, long_only=False)
+
+
 PARTS = [
     Part('random', 'hyp', run_case, strategy=cases(), quick=15000, thorough=800000, quick_shards=8),
     Part('grid', 'sweep', run_case, sweep=grid, quick_shards=8, exhaustive=True),
+    Part('csv', 'hyp', run_csv_ls, strategy=csv_cases(False), quick=300, thorough=24000, quick_shards=8),
 ]
